@@ -15,19 +15,22 @@ INFO = ("YTagsRef (TLA+ reference: directive tables per document, handle resolut
 def run(ck):
     ck.rule = "every (directive sets, spellings, kinds, keep) combination of MC_Tags (finite space, enumerated completely); distinct = distinct rendered texts"
     ck.assumptions = ["the renderer of MC_Tags writes directives, '--- <tag> <node>' and '...' lines only (unambiguous YAML)"]
-    cfg = "MC_Tags" if ck.tier == "thorough" else "MC_Tags_quick"
-    m = props.tlc_cached(ck, "MC_Tags", cfg, ["YTagsRef.tla", "YChars.tla"], workers=8, keep_out=True)
-    if not m["ok"]:
-        raise ToolError("MC_Tags did not complete: %s" % m["tail"][-800:])
-    s = vh_json(["c16", "--in", m["out"], "--out", ck.wd("bad.ndjson")])
-    ck.evaluations += s["runs"]
-    ck.distinct += s["distinct"]
-    ck.traces += s["cases"]
+    # quick: two documents, later documents with the small directive lists and scalars only; thorough: that, and in addition
+    # (MC_Tags.cfg, Full) every directive list and node kind in the later document too
+    for cfg in (["MC_Tags_quick", "MC_Tags"] if ck.tier == "thorough" else ["MC_Tags_quick"]):
+        m = props.tlc_cached(ck, "MC_Tags", cfg, ["YTagsRef.tla", "YChars.tla"], workers=8, keep_out=True, xmx="12g")
+        if not m["ok"]:
+            raise ToolError("%s did not complete: %s" % (cfg, m["tail"][-800:]))
+        bad = ck.wd("bad_%s.ndjson" % cfg)
+        s = vh_json(["c16", "--in", m["out"], "--out", bad], timeout=7200)
+        ck.evaluations += s["runs"]
+        ck.distinct += s["distinct"]
+        ck.traces += s["cases"]
+        for b in read_ndjson(bad):
+            ck.violation("tags:%s:keep=%s" % (json.dumps(b["t"]), b["keep"]), "%s — on %r (keep_tags=%s, %s)" % (b["why"], b["t"][:120], b["keep"], b["be"]), b)
+        for x in s["samples"]:
+            ck.sample({"text": x["text"], "keep": x["keep"], "expect": ["err" if e["err"] else ["".join(p) for p in e["tag"]] for e in x["expect"]]})
     ck.exhaustive = True
-    for b in read_ndjson(ck.wd("bad.ndjson")):
-        ck.violation("tags:%s:keep=%s" % (json.dumps(b["t"]), b["keep"]), "%s — on %r (keep_tags=%s, %s)" % (b["why"], b["t"][:120], b["keep"], b["be"]), b)
-    for x in s["samples"]:
-        ck.sample({"text": x["text"], "keep": x["keep"], "expect": ["err" if e["err"] else ["".join(p) for p in e["tag"]] for e in x["expect"]]})
     # the directive / tag paths of the implementation-shaped model, exhaustively over small texts (drift only)
     props.pipeline_inputs(ck, [("prop", 4), ("dir", 4)] if ck.tier == "quick" else [("prop", 5), ("dir", 5)])
 
